@@ -13,7 +13,7 @@
                   linear combination.
 """
 from arklib import dataflow as DF
-from arklib.facts import place_parts, op_local, op_place
+from arklib.facts import place_parts, op_local, op_place, closure_args
 from rules import lincomb
 
 DENSE = "ark_poly::polynomial::univariate::dense::DensePolynomial"
@@ -541,7 +541,31 @@ def check_naivemul(res, facts):
             problems.append("the result table has %s entries, expected deg(a) + deg(b) + 1" % [str(x) for x in lens])
     except NotPoly as e:
         problems.append("table length is not an expression of the degrees: %s" % e)
-    if len(accs) != 1:
+    zipped = None
+    if not accs:
+        # second shape: for each i, `result[i..].iter_mut().zip(other.coeffs.iter()).for_each(|(acc, b)| *acc += a_i * b)`:
+        # the k-th entry of the window starting at i is paired with b_k, i.e. index i + k
+        from rules.c07 import norm
+        for _, t in f.calls():
+            if t["f"].get("name") == "for_each" and len(t["args"]) == 2:
+                src = E(f, t["args"][0])
+                cl = [facts.get(c_, f.unit) for c_ in closure_args(f, t)]
+                cl = [c_ for c_ in cl if c_ is not None]
+                win = ("call", "iter_mut", (("call", "index_mut", (C("from_elem", 0, tabs[0]) if tabs else None, ("agg", "RangeFrom", (ia,)))),))
+                if cl and src == ("call", "zip", (win, C("iter", A(2, "coeffs")))):
+                    ca = [tt for _, tt in cl[0].calls() if tt["f"].get("name") == "add_assign"]
+                    if len(ca) == 1:
+                        dst = norm(DF.lift_captures(facts, cl[0], DF.expr(cl[0], ca[0]["args"][0], depth=30)))
+                        val = norm(DF.lift_captures(facts, cl[0], DF.expr(cl[0], ca[0]["args"][1], depth=30)))
+                        a_i = C("index", A(1, "coeffs"), ia)
+                        okd = isinstance(dst, tuple) and dst[0] == "cparam" and dst[3][:1] == ("0",)
+                        okv = isinstance(val, tuple) and val[:2] == ("call", "mul") and a_i in val[2] and any(isinstance(x, tuple) and x[0] == "cparam" and x[3][:1] == ("1",) for x in val[2])
+                        zipped = okd and okv
+    if zipped:
+        pass
+    elif zipped is False:
+        problems.append("the windowed accumulation does not add a_i * b_k into the k-th entry of result[i..]")
+    elif len(accs) != 1:
         problems.append("expected one accumulation site, found %d" % len(accs))
     else:
         dst, val = E(f, accs[0]["args"][0]), E(f, accs[0]["args"][1])
